@@ -128,7 +128,10 @@ func (m *UpstreamClusterController) syncUpstreamCluster(obj interface{}) (syncqu
 		clusterInfo, err = clusters.CreateClusterInfo(cluster, GatewayHealthCheck, m.rateLimiter, m.clientSets)
 		defer func() {
 			if err != nil {
-				clusterInfo.Stop()
+				// clusterInfo is nil when it could not be created
+				if clusterInfo != nil {
+					clusterInfo.Stop()
+				}
 				m.DeleteForServerNames(clusterName)
 			}
 		}()
